@@ -60,7 +60,9 @@ class Ctx:
         shutil.rmtree(self.work, ignore_errors=True)
         os.makedirs(self.work)
         self.t0 = time.time()
-        self.cores = int(os.environ.get("VERIF_CORES", str(os.cpu_count() or 4)))
+        # /verif/.busy (not committed) marks a shared development box: stay small
+        default_cores = 3 if os.path.exists(os.path.join(VERIF, ".busy")) else (os.cpu_count() or 4)
+        self.cores = int(os.environ.get("VERIF_CORES", str(default_cores)))
         self.keep = os.environ.get("VERIF_KEEP") == "1"
         self.tlc_stats = []    # (label, generated, distinct, depth)
         self.notes = []
@@ -99,8 +101,9 @@ class Ctx:
         cfg = cfg or (module + ".cfg")
         label = label or cfg
         meta = os.path.join(self.work, "meta-%s-%d" % (re.sub(r'\W', '_', label), len(self.tlc_stats)))
-        workers = workers or min(self.cores, 16)
-        cmd = ["java", "-XX:+UseParallelGC", "-Xmx" + heap, "-Xss64m"]
+        workers = min(workers or self.cores, self.cores, 16)
+        cmd = ["java", "-XX:+UseParallelGC", "-XX:ParallelGCThreads=%d" % max(1, min(4, workers)),
+               "-Xmx" + heap, "-Xss64m"]
         if deque:
             cmd.append("-Dtlc2.tool.queue.IStateQueue=StateDeque")
         cmd += ["-cp", JAR, "tlc2.TLC", "-noGenerateSpecTE", "-metadir", meta,
@@ -522,7 +525,7 @@ def validate_traces(ctx, module, rows, cfg=None, max_events=3000, timeout=900, l
             shutil.rmtree(d, ignore_errors=True)
         return k, v
 
-    with ThreadPoolExecutor(max_workers=max(1, min(len(chunks), ctx.cores // 2))) as ex:
+    with ThreadPoolExecutor(max_workers=max(1, min(len(chunks), ctx.cores))) as ex:
         for k, v in ex.map(one, range(len(chunks))):
             for kind in ("viol", "drift"):
                 for rec in v.get(kind) or []:
